@@ -173,19 +173,23 @@ class ComplementaryTableInfo:
         for name in set(columns.keys()) - df_cname_set:
             del columns[name]
 
-        if not self.metadata.strict_types:
-            return
+        if self.metadata.strict_types:
+            # update metadata
+            for name in df_columns:
+                dtype = df[name].dtype
+                # notice that only non-empty columns are changed
+                # this is because empty columns default to float data type
+                is_empty = df.empty
+                if name in columns and not is_empty:
+                    columns[name].check_dtype(dtype=dtype, col_name=name)
+                elif not is_empty:
+                    columns[name] = ColumnMetadata.from_dtype(dtype)
 
-        # update metadata
-        for name in df_columns:
-            dtype = df[name].dtype
-            # notice that only non-empty columns are changed
-            # this is because empty columns default to float data type
-            is_empty = df.empty
-            if name in columns and not is_empty:
-                columns[name].check_dtype(dtype=dtype, col_name=name)
-            elif not is_empty:
-                columns[name] = ColumnMetadata.from_dtype(dtype)
+        # keep the register in dataframe column order: units are reported positionally
+        if list(columns.keys()) != [name for name in df_columns if name in columns]:
+            ordered = [(name, columns[name]) for name in df_columns if name in columns]
+            columns.clear()
+            columns.update(ordered)
 
     def _check_dataframe(self, df: pd.DataFrame):
         """
